@@ -98,7 +98,7 @@ Section ParMulti.
   Hypothesis HXstep : forall fuel st m R st', Tplain st -> PInv st -> LInvP st (m :: R) -> inGraph (nd st m) = true ->
     recomputeNodeParallel fuel [] st m = Ok (st', None) -> X st (m :: R) -> X st' R.
   Hypothesis HXfault : forall fuel st x w k R st' e', PInv st -> LInvP st (x :: R) -> inGraph (nd st x) = true ->
-    tkw w (nkind (nd st x)) = true -> isDone st x = false ->
+    tkw w (nkind (nd st x)) = true -> isDone st x = false -> inPlan q x k ->
     recomputeNodeParallel fuel (fplan x w k) st x = Ok (st', e') -> X st (x :: R) -> X st' R.
   Hypothesis HXstart : forall s block w order, PInv s -> Heap.takeMinBlock (heap s) = (block, w) ->
     (forall x, x ∈ order <-> x ∈ block) -> X s [] -> X (s <| heap := w |>) order.
@@ -137,7 +137,7 @@ Section ParMulti.
     { intros y Hty Hgy. destruct (decide (y = x)) as [->|Hyx]; [exact Edx|].
       unfold isDone. rewrite (Ene y Hyx), Ek. rewrite (Ene y Hyx) in Hgy. apply (Hn y); [|exact Hgy].
       unfold tgt in *. rewrite (Ene y Hyx) in Hty. exact Hty. }
-    split; [apply (HXfault fuel st x w k R st' _ P L Hg Ht Hd Hr HX)|].
+    split; [apply (HXfault fuel st x w k R st' _ P L Hg Ht Hd (tgt_inPlan st x w k Et) Hr HX)|].
     split; [exact Ek|]. split; [apply CF_binds, Eb|]. split; [exact K'|]. split; [exact Hqx|]. split; [exact HxR|].
     split; [exact Hna|]. split; [apply (tkw_nonlhs w _ Ht)|].
     intros y Hy. destruct (PInv_heap st P) as [I _]. apply (inHeap_iff0 st' y I'), Hids. right. apply (inHeap_iff0 st y I), Hy.
@@ -352,7 +352,7 @@ Section ParMultiPass.
   Hypothesis HXstep : forall fuel st m R st', Tplain st -> PInv st -> LInvP st (m :: R) -> inGraph (nd st m) = true ->
     recomputeNodeParallel fuel [] st m = Ok (st', None) -> X st (m :: R) -> X st' R.
   Hypothesis HXfault : forall fuel st x w k R st' e', PInv st -> LInvP st (x :: R) -> inGraph (nd st x) = true ->
-    tkw w (nkind (nd st x)) = true -> isDone st x = false ->
+    tkw w (nkind (nd st x)) = true -> isDone st x = false -> inPlan q x k ->
     recomputeNodeParallel fuel (fplan x w k) st x = Ok (st', e') -> X st (x :: R) -> X st' R.
   Hypothesis HXstart : forall s block w order, PInv s -> Heap.takeMinBlock (heap s) = (block, w) ->
     (forall x, x ∈ order <-> x ∈ block) -> X s [] -> X (s <| heap := w |>) order.
